@@ -29,6 +29,8 @@ type MachineProvider interface {
 
 	StatesList() []fsm.State
 
+	FinStatesList() []fsm.State
+
 	IsFinState(state fsm.State) bool
 }
 
@@ -123,6 +125,20 @@ func Init(machines ...MachineProvider) *FSMPool {
 				p.states[state] = machineName
 			}
 
+		}
+
+		// Final states which do not start another machine (cancelled rounds) stay with the machine
+		// they belong to, otherwise a round persisted in such a state could never be loaded again
+		for _, state := range machine.FinStatesList() {
+			if state == fsm.StateGlobalDone {
+				continue
+			}
+			if _, exists := allInitStatesMap[state]; exists {
+				continue
+			}
+			if _, exists := p.states[state]; !exists {
+				p.states[state] = machineName
+			}
 		}
 	}
 
